@@ -59,17 +59,21 @@ class Deseasonalizer(_SeriesToSeriesTransformer):
         self._y_index = y.index
 
     def _align_seasonal(self, y):
-        """Align seasonal components with y's time index"""
-        shift = (
-            -_get_duration(
-                y.index[0],
+        """Align seasonal components with y's time index, which may have gaps
+        (e.g. the prediction index of a gapped forecasting horizon): a time
+        point gets the component of its phase relative to the start of the
+        series seen in fit"""
+        phase = [
+            _get_duration(
+                t,
                 self._y_index[0],
                 coerce_to_int=True,
                 unit=_get_freq(self._y_index),
             )
             % self.sp
-        )
-        return np.resize(np.roll(self.seasonal_, shift=shift), y.shape[0])
+            for t in y.index
+        ]
+        return np.asarray(self.seasonal_)[np.asarray(phase, dtype=int)]
 
     def fit(self, Z, X=None):
         """Fit to data.
